@@ -3,7 +3,7 @@
 # Exit status: 0 if the check reported a VIOLATION (seeded change caught), 1 if it stayed quiet.
 id=$1; patch=$2; tier=${3:-quick}
 wt=/tmp/seedwt-$id-$$
-git -C /repo worktree add -q "$wt" HEAD || exit 2
+git -C /repo worktree add -q "$wt" "${SEED_BASE:-HEAD}" || exit 2
 if ! git -C "$wt" apply "$patch"; then echo "patch does not apply"; git -C /repo worktree remove --force "$wt"; exit 2; fi
 out=$(cd /verif && VERIF_REPO=$wt ./check "$id" --tier "$tier" 2>&1)
 git -C /repo worktree remove --force "$wt"
